@@ -429,6 +429,72 @@ def describe(harness_bin, rulesets, core):
 
 # ------------------------------------------------------------------------------------------------ inputs and facts
 
+def chain_matches(rs, b, base):
+    """the chained strings reported for ONE block (independent port of scan.c _yr_scan_verify_chained_string_match; the pending
+    pieces are per block since /repo 173a2ea): list of (absolute offset, head string index, length)"""
+    info = {c[0]: c[1:] for c in getattr(rs, "chains", [])}      # idx -> (prev, gmin, gmax, tail)
+    if not info:
+        return []
+    strs = rs.all_strings()
+    cands = sorted((o, si, ln) for si in info for o, ln in str_findall(strs[si], b))
+    unc = {si: [] for si in info}          # per piece: [off, len, clen], sorted by off, one entry per offset
+    out = []
+    SLACK = 1024 + 4
+
+    def ok(ci, m, o):
+        return m[0] + m[1] + ci[2] >= o and m[0] + m[1] + ci[1] <= o
+
+    def ins(lst, m):
+        if any(x[0] == m[0] for x in lst):
+            return
+        lst.append(m); lst.sort(key=lambda x: x[0])
+
+    def update(si, m, n):             # _yr_scan_update_match_chain_length
+        if m[2] == n:
+            return
+        m[2] = n
+        prev = info[si][0]
+        if prev < 0:
+            return
+        for mm in unc[prev]:
+            if ok(info[si], mm, m[0]):
+                update(prev, mm, n + 1)
+    for o, si, ln in cands:
+        prev, gmin, gmax, tail = info[si]
+        if prev < 0:
+            ins(unc[si], [o, ln, 0])
+            continue
+        lowest = unc[si][0][0] if unc[si] else o
+        found = False
+        keep = []
+        lst = unc[prev]
+        for i, m in enumerate(lst):
+            if m[0] + m[1] + gmax + SLACK < lowest:
+                continue
+            if ok(info[si], m, o):
+                found = True
+                keep += lst[i:]
+                break
+            keep.append(m)
+        unc[prev] = keep
+        if not found:
+            continue
+        if tail:
+            for m in unc[prev]:
+                if ok(info[si], m, o):
+                    update(prev, m, 1)
+            h, full = si, 0
+            while info[h][0] >= 0:
+                h, full = info[h][0], full + 1
+            done = [m for m in unc[h] if m[2] == full]
+            unc[h] = [m for m in unc[h] if m[2] != full]
+            for m in done:
+                out.append((base + m[0], h, o - m[0] + ln))
+        else:
+            ins(unc[si], [o, ln, 0])
+    return sorted(set(out))
+
+
 class Input:
     """bytes + how an iterator hands them out: block sizes, availability (fetch_data NULL), and the base address reported for
     every block (default contiguous from 0; explicit `bases` model sparse address spaces)"""
@@ -457,12 +523,16 @@ class Input:
     def occurrences(self, rs):
         """absolute (offset, string, length) found block by block, fixed-offset strings filtered"""
         out = []
+        chained = set(rs.expected_chain_idx())
         for base, b, a in self.blocks():
             for si, s in enumerate(rs.all_strings()):
+                if si in chained:
+                    continue          # pieces are not occurrences; the chains they form are (below)
                 fx = rs.fixed[si] if si < len(rs.fixed) else None
                 for o, ln in str_findall(s, b):
                     if fx is None or fx == base + o:
                         out.append((base + o, si, ln))
+            out += chain_matches(rs, b, base)
         return sorted(out)
 
     def same_as_whole(self, rs):
@@ -470,10 +540,8 @@ class Input:
         available, no string occurrence / integer read cut by a block boundary, same executable header facts"""
         if not self.contiguous or not all(self.avail):
             return False
-        if rs.expected_chain_idx() and len(self.parts) > 1:
-            # the pieces of a chained string are combined by their offsets inside the blocks (code behaviour, Thm/C13
-            # chained_pieces_combine_by_in_block_offsets): a partition is not comparable with the whole buffer
-            return False
+        # chained strings: the partition must keep every chain of the whole buffer inside one block and create none (the
+        # comparison of `occurrences` below covers it: chains are computed block by block)
         whole = Input(self.data)
         if self.occurrences(rs) != whole.occurrences(rs):
             return False
